@@ -944,6 +944,7 @@ func run(c *core.Ctx) {
 		uw.partAfterUse(c)
 		uw.close()
 	}
+	partContract(c)
 	c.Set("evaluations", all.evals)
 	// (conc) two simultaneous requests: one preemption in the quick tier (XTEA is a long straight line), two in the thorough tier
 	bound := 1
@@ -996,6 +997,11 @@ func schedWorker(c *core.Ctx, args []string) {
 
 func replay(c *core.Ctx, raw json.RawMessage) {
 	if sched.ReplayCase(c, concScenarios(), raw) {
+		return
+	}
+	var cc contractCase
+	if json.Unmarshal(raw, &cc) == nil && cc.Part == "contract" {
+		runContract(c, cc)
 		return
 	}
 	var ac afterUseCase
